@@ -7,7 +7,7 @@ from typing import Dict, List, Optional, Set, Tuple
 from .ctx import Ctx
 from .model import AnalysisError, ClassInfo, FunctionInfo
 from .report import RuleResult
-from .terms import (alternatives, Attr, Call, ClassRef, Const, EnumMember, Evaluator, Ext, FuncRef, Op, Outcome, Sub, Sym, Term,
+from .terms import (alternatives, expand_outcomes, Attr, Call, ClassRef, Const, EnumMember, Evaluator, Ext, FuncRef, Op, Outcome, Sub, Sym, Term,
                     default_inline, guards_repr, norm_guards, walk)
 
 
@@ -54,7 +54,10 @@ def C1(ctx: Ctx) -> RuleResult:
         exc = [e for e in map(_is_except, o.guards) if e is not None]
         if exc:
             names = []
+            flat_exc = []
             for e in exc:
+                flat_exc.extend(e.items if type(e).__name__ == 'TupleT' else [e])   # except (A, B): both classes
+            for e in flat_exc:
                 if isinstance(e, Ext):
                     names.append(e.name)
                 elif isinstance(e, ClassRef):
@@ -260,7 +263,7 @@ def C3(ctx: Ctx) -> RuleResult:
     if len(params) != 3:
         r.fail(f'{ser.name}:signature', 'value_serializer must take (instance, attribute, value)', ser.where)
         return r
-    souts = ctx.ev.run(ser, {params[2]: value})
+    souts = expand_outcomes(ctx.ev.run(ser, {params[2]: value}))
     enum_ok = nonfinite_ok = ident_ok = False
     for o in souts:
         gs = norm_guards(o.guards)
@@ -296,10 +299,13 @@ def C3(ctx: Ctx) -> RuleResult:
             if not enum_tested:
                 r.fail(f'{ser.name}:identity-guard', f'a value is passed through unchanged on a path that did not rule out Enum members: {desc} (enums nested in tuples / definitions would reach json.dumps)', ser.where)
             # math.* must not be evaluated on non-floats on the way here
+            float_known = False   # an earlier guard of the path already established isinstance(value, float)
             for t, pol in gs:
                 for c in _calls(t, lambda c: isinstance(c.func, Ext) and c.func.name.startswith('math.')):
-                    if not _guarded_by_float(t, c, value):
+                    if not float_known and not _guarded_by_float(t, c, value):
                         r.fail(f'{ser.name}:nonfinite-guard', f'{c.func.name} is applied to a value not proven to be a float (raises OverflowError/TypeError for other values): {desc}', ser.where)
+                if pol and _isinstance_of(t, value, {'float'}):
+                    float_known = True
             r.ok(desc)
             continue
         r.fail(f'{ser.name}:other', f'unexpected mapping {desc}', ser.where)
